@@ -21,7 +21,7 @@ CHECKS = {
    note='Trusted: fairness of the counter-hash default stream; horizon 1e5 deviates; kinetic-energy bound 12 MeV.'),
  'C08': dict(level='exploration', ref='DESIGN.md §2 C08', engine='dx',
    technique='the bounded exhaustive explorations of C01-C04 re-run on an ASan+UBSan+_GLIBCXX_ASSERTIONS build, sanitizer reports as oracle',
-   text='The same exhaustive edge-coverage exploration (every published name, every accepted double-beta configuration, windows; generator and plumbing entry points in the thorough tier) is executed against the sanitizer build of /repo in recover mode; any AddressSanitizer/UBSan report or fatal signal is a violation identified by kind and top bxdecay0 frame.',
+   text='The same exhaustive edge-coverage exploration (every published name, every accepted double-beta configuration, windows; generator and plumbing entry points in the thorough tier) is executed against the sanitizer build of /repo in recover mode, together with the drivers of C07 (API histories over every double-beta mode), C09, C10 and C11; any AddressSanitizer/UBSan report or fatal signal is a violation identified by kind and top bxdecay0 frame.',
    note='Trusted: GCC ASan/UBSan; float division by zero excluded; uninitialised reads are outside ASan/UBSan.'),
  'C06': dict(level='model_checking', ref='DESIGN.md §2 C06', engine='c06',
    technique='complete enumeration of the finite request grid; acceptance compared cell by cell with the transpiled reference GENBBsub (kernel stubbed) and README rules',
@@ -37,23 +37,23 @@ CHECKS = {
    note='Trusted: bit-for-bit comparison; the long history is a single deterministic history, not exhaustive.'),
  'C11': dict(level='model_checking', ref='DESIGN.md §2 C11', engine='c11',
    technique='explicit-state enumeration of (stream, file partition, window, call pattern) against a list-slice reference model on real files; exhaustive value-alphabet round trip',
-   text='Every stream of N<=4 (7 thorough) events, every split over 1-3 files including empty files, every (start,max) in 0..N+1 and every has_next/load call pattern is executed on a real event_reader; each answer is compared with the slice model events[start:start+max]. Round trip of ~8k (27k) enumerated events through the CLI record format to 15 digits.',
+   text='Every stream of N<=4 (7 thorough) events, every split over 1-3 files including empty files, every (start,max) in 0..N+1 and every has_next/load call pattern is executed on a real event_reader; each answer is compared with the slice model events[start:start+max]. Round trip of ~10k (40k) enumerated events over all six particle species through the CLI record format to 15 digits.',
    note='Trusted: the record layout copied from the driver; loads are only issued after a positive has_next_event.'),
  'C10': dict(level='exploration', ref='DESIGN.md §2 C10', engine='c10',
    technique='exhaustive enumeration of the finite product events x cone setups x entry points x deviate grid with geometric invariants; differential generator-level runs',
-   text='1.4M (quick) / ~6M (thorough) applications of the real operation over the full product of synthetic and generated events, cone axes, apertures, rectangular half-angle pairs, filters, ranks, error flag and all five configuration entry points, with both tails of the two cone deviates; every application is checked for count/species/time/|p| preservation, rigid proper rotation, cone or rectangular-window membership (frame built independently), untouched unselected particles, and the nothing-selected rules; generator-level runs compare the decay sample with and without the operation.',
+   text='1.4M (quick) / ~6M (thorough) applications of the real operation over the full product of synthetic and generated events, cone axes, apertures, rectangular half-angle pairs, filters (incl. positrons), ranks, error flag and all five configuration entry points (every label of the label-based one must act like the corresponding species code), with both tails of the two cone deviates; every application is checked for count/species/time/|p| preservation, rigid proper rotation, cone or rectangular-window membership (frame built independently), untouched unselected particles, and the nothing-selected rules; generator-level runs compare the decay sample with and without the operation.',
    note='Trusted: independent cone-frame construction (Rz(phi)Ry(theta)); tolerances stated in the evidence.'),
  'C16': dict(level='exploration', ref='DESIGN.md §2 C16', engine='c16',
    technique='exhaustive enumeration of monomial/degree/interval/panel grids against closed forms (exactness by linearity) with negative controls',
-   text='Each kernel is run on a complete finite grid whose oracle is a closed form or an independent evaluation: all monomials up to the guaranteed degree for the Gauss-Legendre panels and Simpson (with the first non-exact degree as negative control), integrand families with closed-form integrals for the adaptive quadrature at every requested tolerance, unimodal families for the golden section, polynomials on three table layouts for divided differences, an angle grid for the Euler rotation and a (Z,E) grid for the Fermi function against an independent long-double Lanczos evaluation.',
+   text='Each kernel is run on a complete finite grid whose oracle is a closed form or an independent evaluation: all monomials up to the guaranteed degree for the Gauss-Legendre panels and Simpson (steps that tile the interval and steps that do not; the first non-exact degree as negative control), integrand families with closed-form integrals for the adaptive quadrature at every requested tolerance, unimodal families for the golden section, polynomials on three table layouts and every table length from 2 nodes for divided differences, an angle grid for the Euler rotation and a (Z,E) grid for the Fermi function against an independent long-double Lanczos evaluation.',
    note='Trusted: closed forms; long double arithmetic of the reference evaluations.'),
  'C14': dict(level='exploration', ref='DESIGN.md §2 C14', engine='c14',
    technique='exhaustive enumeration of small synthetic datasets (all cell assignments over a value alphabet) x all table-boundary deviates, encoder-side tables as reference model',
-   text='Every assignment of a 4-value alphabet to the cells of the kinematic triangle (n=2,3; n=4 thorough) plus shaped larger tables, written with the repository\'s own encoder, is loaded by the real decoder and sampler; every c.d.f. line is compared with the encoder-side table, and both sampling methods are driven over every table boundary (exact and +-1e-9/1e-3), mid points and tails, checking domain, cell membership, monotonicity and the exported event.',
+   text='Every assignment of a 4-value alphabet to the cells of the kinematic triangle (n=2,3; n=4 thorough) plus shaped larger tables, written with the repository\'s own encoder, is loaded by the real decoder and sampler; every c.d.f. line is compared with the encoder-side table, and both sampling methods are driven over every table boundary (exact and +-1e-9/1e-3), mid points and tails, checking domain, cell membership (for the rejection method: the accepted pair is the proposal of the accepted trial on the grid the file describes), monotonicity and the exported event (energy deviates scripted down to 1e-12); one object re-used across datasets must sample like a new one.',
    note='Trusted: resources/data/dbd_gA/tools/mkocdfdata.py as the documented encoder (imported, not copied); datasets with emin+emax <= Qbb.'),
  'C05': dict(level='exploration', ref='DESIGN.md §2 C05', engine='c05',
    technique='complete enumeration of the finite catalogues (README, list files, dispatch literals) with set equality, plus deviation-bounded exhaustive differential runs name-through-generator vs own scheme function',
-   text='README appendix 1, the resource list files (parsed independently and through the library) and the dispatch literals of genbbsub.cc are enumerated completely and compared as sets per category (plus the mode table); every name of the union is initialised and shot; for each of the 69 published background names the event obtained through decay0_generator is compared bit for bit (and in deviates consumed) with the nuclide\'s own scheme function plus exactly the documented daughter, for the default stream and every single forced deviate position over a 15-value grid.',
+   text='README appendix 1, the resource list files (parsed independently and through the library) and the dispatch literals of genbbsub.cc are enumerated completely and compared as sets per category (plus the mode table); every name of the union is initialised and shot, and ~30 names that are published nowhere and match no dispatch entry must be refused; for each of the 69 published background names the event obtained through decay0_generator is compared bit for bit (and in deviates consumed) with the nuclide\'s own scheme function plus exactly the documented daughter, for the default stream and every single forced deviate position over a 15-value grid.',
    note='Trusted: the name -> scheme-function table written from the README; double-beta schemes are bound by C02.'),
  'C12': dict(level='model_checking', ref='DESIGN.md §2 C12', engine='c12',
    technique='stateless exhaustive exploration of thread interleavings of the real code under a cooperative scheduler (preemption-bounded, state-hash pruned), plus a free-running ThreadSanitizer pass',
@@ -61,7 +61,7 @@ CHECKS = {
    note='Trusted: preemption only at interposed points, sequential consistency; TSan for everything below; glibc/libstdc++ internals are not scheduled.'),
  'C13': dict(level='fault_enumeration', ref='DESIGN.md §2 C13', engine='c13',
    technique='exhaustive enumeration of every write()-level kill point and torn write of the CLI run (LD_PRELOAD shim) plus enumerated command lines compared byte for byte with an in-process API recomputation',
-   text='Every write()/writev() to the event and companion files of several command lines is numbered through an LD_PRELOAD shim and the run is repeated with the process killed before each write and with that write torn (1 byte, half): the completion marker may only be present if the event file equals the complete one, and what is left is a prefix. 140+ command lines (accepted and refused, one-sided windows, activity, MDL) are run twice on the binary built from /repo and compared byte for byte with the library API driven in-process with the same seed.',
+   text='Every write()/writev() to the event and companion files of several command lines is numbered through an LD_PRELOAD shim and the run is repeated with the process killed before each write and with that write torn (1 byte, half): the completion marker may only be present if the event file equals the complete one, and what is left is a prefix. 150+ command lines (accepted and refused, one-sided windows, activity, MDL options all together and each alone, a refused run re-using the basename of a successful one) are run twice on the binary built from /repo and compared byte for byte with the library API driven in-process with the same seed.',
    note='Trusted: process kill only (no reordering of completed writes, no ENOSPC); refusal rules from README/--help.'),
  'C17': dict(level='exploration', ref='DESIGN.md §2 C17', engine='c17',
    technique='exhaustive enumeration of a configuration grid on the unmodified Geant4 extension sources compiled against a minimal Geant4 stand-in; differential against the core API',
